@@ -5,9 +5,12 @@
 //! instances exchanging the definition, equal dates (harmless ties), dates going backwards, entries
 //! refused by the append-only check; then every construction path is observed.
 //!
-//! Two constraints keep the implementation's outcome independent of SQLite's uid order (random):
-//!  * one (list, key) pair is used at most once per date (no conflicting equal-date entries);
-//!  * one date is used by one caller only.
+//! Uids are made sequential (ascending, or descending with `uids=desc` in the case header), so the order
+//! SQLite returns equal-date rows in is determined and the model follows it. Most histories keep
+//!  * one (list, key) pair used at most once per date (no conflicting equal-date entries),
+//!  * one date used by one caller only;
+//! a share of the cases (`ties`) drops both rules: that is the region excluded by the guard
+//! `TiesHarmless` of the theorems, where live, reloaded and imported rooms may differ.
 use dvcommon::Gen;
 use std::collections::{HashMap, HashSet};
 use std::io::Write;
@@ -22,6 +25,8 @@ struct Shadow {
     date_owner: HashMap<i64, u64>,
     last_date: i64,
     ngroups: u64,
+    /// conflicting equal-date entries allowed
+    ties: bool,
 }
 
 fn flag(g: &mut Gen, p_disable: u32) -> &'static str {
@@ -40,7 +45,7 @@ impl Shadow {
         let mut res = vec![];
         for _ in 0..n {
             let k = *g.pick(pool);
-            if self.used.insert((list.to_string(), k, d)) {
+            if self.used.insert((list.to_string(), k, d)) || (self.ties && g.chance(2, 3)) {
                 res.push(format!("{}{}", k, flag(g, p_disable)));
             }
         }
@@ -52,7 +57,7 @@ impl Shadow {
         let mut res = vec![];
         for _ in 0..n {
             let e = g.weighted(&[4, 5, 3, 2, 1]) as u64;
-            if self.used.insert((list.to_string(), e, d)) {
+            if self.used.insert((list.to_string(), e, d)) || (self.ties && g.chance(2, 3)) {
                 // (self, all): all-without-self is the shape normalised on two of the three paths
                 let (s, a) = match g.weighted(&[3, 3, 3, 2]) {
                     0 => (1, 1),
@@ -181,7 +186,7 @@ impl Shadow {
 
     fn next_date(&mut self, g: &mut Gen, caller: u64, dmax: i64) -> i64 {
         for _ in 0..20 {
-            let d = match g.weighted(&[12, 3, 2]) {
+            let d = match g.weighted(if self.ties { &[5, 8, 3] } else { &[12, 3, 2] }) {
                 0 => self.last_date + 1 + g.below(2) as i64,  // forward
                 1 => self.last_date,                            // same date (same caller only)
                 _ => 1 + g.below(self.last_date.max(1) as usize) as i64, // backwards
@@ -190,7 +195,7 @@ impl Shadow {
                 continue;
             }
             match self.date_owner.get(&d) {
-                Some(o) if *o != caller => continue,
+                Some(o) if *o != caller && !self.ties => continue,
                 _ => {}
             }
             self.date_owner.insert(d, caller);
@@ -222,7 +227,17 @@ fn split_flag(t: &str) -> (u64, bool) {
 pub fn c10_case(g: &mut Gen, id: u64, w: &mut impl Write, long: bool) {
     let keys = 5u64;
     let dmax = if long { 16 } else { 10 };
-    writeln!(w, "case id={} keys={} dmax={}", id, keys, dmax).unwrap();
+    let ties = g.chance(1, 5);
+    let desc = g.chance(2, 5);
+    writeln!(
+        w,
+        "case id={} keys={} dmax={}{}",
+        id,
+        keys,
+        dmax,
+        if desc { " uids=desc" } else { "" }
+    )
+    .unwrap();
     let mut sh = Shadow {
         admins: vec![HashSet::new(), HashSet::new(), HashSet::new()],
         groups: vec![HashSet::new(), HashSet::new(), HashSet::new()],
@@ -231,6 +246,7 @@ pub fn c10_case(g: &mut Gen, id: u64, w: &mut impl Write, long: bool) {
         date_owner: HashMap::new(),
         last_date: 0,
         ngroups: 0,
+        ties,
     };
     let d0 = sh.next_date(g, 1, dmax);
     let l = sh.mutation(g, 0, d0, true, keys);
